@@ -16,3 +16,14 @@ package checks
 //@   ensures !(s == "fatal" || s == "bug" || s == "warning" || s == "info") ==> result1 != nil
 //@   ensures result1 == nil ==> Information <= result0 && result0 <= Fatal
 //@   safe
+
+// C15: an outage is reported as Warning (Bug when the server is required), a too-expensive query as Warning,
+// anything else with the caller's severity; the problem is attributed to the caller's reporter and never crashes.
+//@ func problemFromError [C15]
+//@   requires rule.AlertingRule != nil || rule.RecordingRule != nil
+//@   ensures promapi.tooExpensive(err) ==> result.Severity == Warning
+//@   ensures !promapi.tooExpensive(err) && promapi.unavailable(err) ==>
+//@              result.Severity == ((errorsAs(err, *promapi.FailoverGroupError) && errorsAsVal(err, *promapi.FailoverGroupError).isStrict) ? Bug : Warning)
+//@   ensures !promapi.tooExpensive(err) && !promapi.unavailable(err) ==> result.Severity == s
+//@   ensures result.Reporter == reporter && len(result.Diagnostics) == 1 && result.Lines == rule.Lines
+//@   safe
